@@ -106,6 +106,17 @@ T = {
     "C11-e2": ("batch_size with use_backups off (threads / processes executor)", ["C07", "C08", "C11"], "caught", "MAP-DRAIN-1", "clause refill-gate added because of this change (reported under C07/C08; C11 does not quantify over batch_size)"),
     "C13-e1": ("use_backups, a straggler and its backup finishing in the same wait round", ["C13", "C08"], "caught", "MAP-ONCE-1", "existing rule"),
     "C13-e2": ("a lazy region store computed twice (or un-optimised then optimised)", ["C13", "C11"], "caught", "COUNT-1", "clause reiterable:class added because of this change"),
+    "C04-e1": ("forced fusion (fuse_all_optimize_dag), a first fused predecessor heavier than its successor, allowed_mem between the two projections", ["C04", "C03"], "caught", "MEM-FUSEMAX-1", "existing rule (third independent 'generator consumed by an early all()')"),
+    "C04-e2": ("the same fusable predecessor feeding two arguments, heavier than the consumer, allowed_mem in the narrow band, default optimiser", ["C04", "C03", "C02"], "caught", "FUSE-TWINLIST-1", "rule added because of this change"),
+    "C06-e1": ("a multi-stage rechunk with an irregular intermediate and a second-stage task run twice in one process", ["C06", "C15"], "caught", "TASK-PURE-1", "existing rule"),
+    "C06-e2": ("a structured-dtype intermediate and a create-arrays task run again after the producer wrote", ["C06"], "caught", "CREATE-MODE-1", "existing rule (second independent occurrence)"),
+    "C08-e1": ("batch_size not dividing the number of inputs", ["C08", "C13", "C07"], "caught", "BATCH-COVER-1", "rule added because of this change"),
+    "C08-e2": ("use_backups, one twin failing and the other succeeding", ["C08"], "caught", "MAP-TWIN-SYM-1", "existing rule"),
+    "C14-e2": ("x.rechunk(c, allow_irregular=False) through the array method", ["C14"], "caught", "RECHUNK-CHAIN-1", "clause wrapper-forward added because of this change"),
+    "C14-e3": ("rechunk_plan of a request that needs two or more copy ops", ["C14"], "caught", "RECHUNK-CHAIN-1", "clause report-source added because of this change"),
+    "C14-e4": ("a dict chunk spec with an unspecified axis reused for a second array", ["C14"], "caught", "RECHUNK-CHAIN-1", "clause request-intact added because of this change"),
+    "C18-e1": ("plan()/visualize() of several arrays with unequal specs", ["C18"], "caught", "SPEC-CHECK-1", "existing rule"),
+    "C18-e2": ("two specs on the processes executor differing only in max_workers", ["C18", "C19"], "caught", "EXEC-EQ-1", "rule added because of this change"),
     "C15-e1": ("fusion, a streaming predecessor, the same predecessor chunk referenced twice", ["C15", "C02"], "caught", "NEST-DISPATCH-1", "existing clause key-fresh-call"),
 }
 
